@@ -1544,21 +1544,29 @@ class MacroFunction(Macro):
         if self.has_strcat:
             res_tokens = []
             last_cat = False
+            placemarker = False
+            prev_white = False
             idx = 0
 
             while idx < len(self.replacement):
                 tok = self.replacement[idx]
                 if tok.token == "##":
-                    last = res_tokens.pop()
-                    prev_white = last.prev_white
-                    if not last_cat:
-                        try:
-                            argidx = self._parameter_index(last)
-                            last = input_args[argidx][0]  # Unexpanded arg
-                        except ValueError:
-                            last = [last]
+                    if placemarker:
+                        # The left operand is the empty result of the
+                        # previous ##; prev_white is still that of the
+                        # first operand of the chain.
+                        last = []
                     else:
-                        last = [last]
+                        last = res_tokens.pop()
+                        prev_white = last.prev_white
+                        if not last_cat:
+                            try:
+                                argidx = self._parameter_index(last)
+                                last = input_args[argidx][0]  # Unexpanded arg
+                            except ValueError:
+                                last = [last]
+                        else:
+                            last = [last]
                     idx += 1
                     nexttok = self.replacement[idx]
                     try:
@@ -1566,7 +1574,7 @@ class MacroFunction(Macro):
                         nexttok = input_args[argidx][0]  # Unexpanded arg
                     except ValueError:
                         nexttok = [nexttok]
-                    if len(last) > 0:
+                    if len(last) > 0 and len(nexttok) > 0:
                         lex = Lexer(last[-1].token + nexttok[0].token)
                         tok = lex.tokenize_one()
                         if tok is None:
@@ -1575,13 +1583,16 @@ class MacroFunction(Macro):
                             )
                         tok.prev_white = last[-1].prev_white
                         toadd = last[:-1] + [tok] + nexttok[1:]
-                        if toadd[0].prev_white != prev_white:
-                            cp = copy(toadd[0])
-                            cp.prev_white = prev_white
-                            toadd[0] = cp
-                        res_tokens.extend(toadd)
                     else:
-                        res_tokens.extend(nexttok)
+                        # An empty argument is a placemarker: the result
+                        # is the other operand (C11 6.10.3.3p3).
+                        toadd = last + nexttok
+                    if len(toadd) > 0 and toadd[0].prev_white != prev_white:
+                        cp = copy(toadd[0])
+                        cp.prev_white = prev_white
+                        toadd[0] = cp
+                    res_tokens.extend(toadd)
+                    placemarker = len(toadd) == 0
                     last_cat = True
                 elif tok.token == "#":
                     idx += 1
@@ -1600,9 +1611,11 @@ class MacroFunction(Macro):
                     tok = Lexer.stringify(tok)
                     tok.prev_white = tok.prev_white
                     last_cat = True
+                    placemarker = False
                     res_tokens.append(tok)
                 else:
                     last_cat = False
+                    placemarker = False
                     res_tokens.append(tok)
                 idx += 1
         else:
